@@ -1,5 +1,6 @@
 import DepLogic.Properties.C12
 import DepLogic.Properties.C15
+import DepLogic.Properties.C15NonEmpty
 
 /-!
 # C12, third clause without the `NoVanish` hypothesis on the shapes the library produces
@@ -87,6 +88,76 @@ example : DnfShape (.union [.multi [C15.atomA, C15.atomB], C15.atomC]) := by
 
 example : GAll (NameIn (· ≠ "extra")) (.union [.multi [C15.atomA, C15.atomB], C15.atomC]) := by
   simp [GAll, GAllL, NameIn, singleName?, C15.atomA, C15.atomB, C15.atomC]
+
+/-! ### conjunctive shape: a conjunction whose members are single markers or non-empty disjunctions of single
+markers — the factored form `|` may choose (seed C12k lives exactly here) -/
+
+def DisjItem (c : M) : Prop := c.isSingle = true ∨ ∃ l, c = .union l ∧ l ≠ [] ∧ C15.AllSingle l
+
+def CnfShape (m : M) : Prop := ∃ l, m = .multi l ∧ ∀ c ∈ l, DisjItem c
+
+theorem filterMap_exclude_singles (f : Nat) (name : String) : ∀ (l : List M), C15.AllSingle l →
+    GAllL (NameIn (· ≠ name)) l →
+    (l.filterMap fun c => if c.isSingle && c.singleName? == some name then none else some (exclude f c name)) = l
+  | [], _, _ => rfl
+  | x :: xs, hl, hn => by
+    simp only [GAllL] at hn
+    have hx := hl x (List.mem_cons_self ..)
+    have hne := single_name_ne x name hx hn.1
+    have ih := filterMap_exclude_singles f name xs (fun y hy => hl y (List.mem_cons_of_mem _ hy)) hn.2
+    simp only [List.filterMap_cons, hx, hne, Bool.and_false, Bool.false_eq_true, if_false,
+      C15.exclude_single f x name hx hne, ih]
+
+theorem exclude_disjItem_not_empty (fuel : Nat) (c : M) (name : String) (hc : DisjItem c)
+    (hn : GAll (NameIn (· ≠ name)) c) : (exclude fuel c name).isEmpty = false := by
+  rcases hc with hs | ⟨l, rfl, hne, hl⟩
+  · rw [C15.exclude_single fuel c name hs (single_name_ne c name hs hn)]
+    cases c <;> simp [isSingle] at hs <;> rfl
+  · cases fuel with
+    | zero => rfl
+    | succ f =>
+      rw [C15.exclude_union_eq, filterMap_exclude_singles f name l hl (by simpa [GAll] using hn)]
+      simp only
+      have : l.isEmpty = false := by cases l with
+        | nil => exact absurd rfl hne
+        | cons _ _ => rfl
+      simp only [this, Bool.false_eq_true, if_false]
+      exact C15.unionOfList_not_empty f l hl hne
+
+theorem noVanish_disjItem (fuel : Nat) (c : M) (name : String) (hc : DisjItem c) : NoVanish fuel c name := by
+  rcases hc with hs | ⟨l, rfl, hne, hl⟩
+  · exact noVanish_single fuel c name hs
+  · cases fuel with
+    | zero => simp [NoVanish]
+    | succ f =>
+      simp only [NoVanish]
+      exact ⟨hne, fun c hc => noVanish_single f c name (hl c hc)⟩
+
+/-- **`NoVanish` holds on conjunctive shapes that do not mention the variable** -/
+theorem noVanish_cnf (fuel : Nat) (m : M) (name : String) (hm : CnfShape m)
+    (hn : GAll (NameIn (· ≠ name)) m) : NoVanish fuel m name := by
+  obtain ⟨l, rfl, hl⟩ := hm
+  cases fuel with
+  | zero => simp [NoVanish]
+  | succ f =>
+    simp only [NoVanish]
+    intro c hc
+    have hcn := gallL_mem _ l (by simpa [GAll] using hn) c hc
+    exact ⟨exclude_disjItem_not_empty f c name (hl c hc) hcn, noVanish_disjItem f c name (hl c hc)⟩
+
+/-- **C12, third clause, no side condition, conjunctive shapes** -/
+theorem exclude_same_cnf (env : Env) (he : EnvTotal env) (name : String) (fuel : Nat) (m : M)
+    (hm : GAll (Good env) m) (hs : CnfShape m) (hn : GAll (NameIn (· ≠ name)) m) :
+    sem env (exclude fuel m name) = sem env m :=
+  (exclude_final env he name fuel m hm).2.2 hn (noVanish_cnf fuel m name hs hn)
+
+example : CnfShape (.multi [C15.atomA, .union [C15.atomB, C15.atomC]]) := by
+  refine ⟨_, rfl, ?_⟩
+  intro c hc
+  simp at hc
+  rcases hc with rfl | rfl
+  · left; rfl
+  · right; exact ⟨_, rfl, by simp, by intro x hx; simp at hx; rcases hx with rfl | rfl <;> rfl⟩
 
 end C12
 end DepLogic
